@@ -25,6 +25,12 @@ CLAIMED = {
              "read-only call; build()/switch_register copies have the identical timeline; plus raise=>unchanged on the L1 scheduler step.", ref="§6 C09",
              note="Trusted base: z3, symx, stubs in the evidence file. Findings F9/F9b are reported as KNOWN-FINDING (region = only fall-time/alignment "
              "delays, or the closing of the EOM block, are left behind); F6 was repaired (fix: commit 2a6983f4)."),
+ "C13": dict(text="Bounded symbolic model checking of the typestate: operation codes of call histories (length 3, or a concrete prefix + 2) "
+             "over a 24-call alphabet are solver variables; every call is issued on a real Sequence (physical-like VirtualDevice with EOM/DMM/SLM, "
+             "MockDevice with XY) and its accept/refuse outcome plus the observable state (is_parametrized, is_measured, is_in_eom_mode, "
+             "available_channels) must agree with a reference automaton over the documented mode.", ref="§6 C13",
+             note="Trusted base: z3, symx, the reference automaton in checks/c13.py (answers accept/refuse/unspecified; only the first two are asserted). "
+             "Findings F11, F12 are reported as KNOWN-FINDING."),
  "C02": dict(text="Bounded symbolic model checking of the real _Schedule operations: one operation from an arbitrary state "
              "satisfying the representation invariant (inductive step), all times/durations/fall times/limits as solver variables; "
              "exhaustive over paths and values inside the stated slot-count/clock bounds.", ref="§6 C02, §5 L1"),
